@@ -56,7 +56,7 @@ func init() {
 func c20Gen(tier string, seed int64) []fw.Case {
 	rng := fw.NewRand(uint64(seed)*5381 + 20)
 	var cases []fw.Case
-	reps := tierPick(tier, 25, 600)
+	reps := tierPick(tier, 25, 250)
 	for rep := 0; rep < reps; rep++ {
 		for ei, ending := range c20Endings {
 			slow := strings.Contains(ending, "slow-peer") || ending == "Close-silent-peer"
@@ -359,15 +359,30 @@ func waitNoLibGoroutines(d time.Duration) []string { return waitNoLibGoroutinesE
 // whose stack contains except) remains, or d passes.
 func waitNoLibGoroutinesExcept(d time.Duration, except string) []string {
 	deadline := time.Now().Add(d)
+	hard := time.Now().Add(d + 10*time.Second)
 	for {
 		var left []string
+		parked := false
 		for _, g := range libGoroutines() {
 			if except != "" && strings.Contains(g, except) {
 				continue
 			}
 			left = append(left, g)
+			// a goroutine that is merely waiting for a CPU ("runnable"/"running") is on its way out; one
+			// that is parked (select, chan receive, IO wait, semacquire, sleep) after the grace period is a leak
+			hdr := g
+			if i := strings.IndexByte(g, '\n'); i >= 0 {
+				hdr = g[:i]
+			}
+			if !strings.Contains(hdr, "[runnable") && !strings.Contains(hdr, "[running") {
+				parked = true
+			}
 		}
-		if len(left) == 0 || time.Now().After(deadline) {
+		if len(left) == 0 {
+			return nil
+		}
+		now := time.Now()
+		if now.After(hard) || (now.After(deadline) && parked) {
 			return left
 		}
 		time.Sleep(2 * time.Millisecond)
